@@ -106,7 +106,7 @@ func firstSendOnFreshBuffered(op blockingOp) bool {
 		return false
 	}
 	fn := op.Fn
-	root := outermost(fn)
+	root := lexicalOutermost(fn)
 	mk := makeChanOf(fn, send.Chan)
 	if mk == nil || mk.Parent() != root {
 		return false
